@@ -45,7 +45,7 @@ def gp_to_asp(gp: GP):
     return "\n".join(out)
 
 
-def clingo_models(text, fixed, show_atoms, cap=400):
+def clingo_models(text, fixed, show_atoms, cap=120):
     """answer sets of the propositional program with the atoms in `fixed` pinned, projected on show_atoms"""
     cons = "\n".join((f":- not a{a}." if v else f":- a{a}.") for a, v in fixed.items())
     ctl = clingo.Control(["0"], logger=lambda c, m: None)
@@ -66,7 +66,7 @@ def clingo_models(text, fixed, show_atoms, cap=400):
     return None if done else res
 
 
-def z3_models(gp: GP, fixed, show_atoms, cap=400):
+def z3_models(gp: GP, fixed, show_atoms, cap=120):
     sys.path.insert(0, os.path.join(ROOT, ".deps"))
     import z3
 
